@@ -109,11 +109,8 @@ def check(ctx):
     bad = [n for n in own_walk(cp.node) if isinstance(n, (ast.With, ast.AsyncWith, ast.Try))]
     ctx.ob("R08-0", cp, "checkpoint() does not shield or catch around its sleep(0)", not bad, detail="" if not bad else f"`{norm(bad[0])}` wraps the checkpoint's sleep",
            by=("plain await",))
-    csc = ctx.fn("AsyncIOBackend.cancel_shielded_checkpoint", A)
-    s = ctx.sites(csc, "await sleep(0)")
-    ok = len(s) == 1 and lexically_inside(s[0][0], is_shield_with, stop=csc.node)
-    ctx.ob("R08-0", csc, "cancel_shielded_checkpoint() yields inside `with CancelScope(shield=True)`", ok,
-           detail="" if ok else "the yield of cancel_shielded_checkpoint is not shielded (or missing)", by=("shielded sleep(0)",))
+    from .common import shielded_checkpoint_is_shielded
+    shielded_checkpoint_is_shielded(ctx, "R08-0")
     sl = ctx.fn("AsyncIOBackend.sleep", A)
     d = sl.node.args.args[1].arg
     s = ctx.sites(sl, f"await sleep({d})")
@@ -335,6 +332,24 @@ def check(ctx):
 
         ctx.paths("R08-b", ta, [("cic", "await checkpoint_if_cancelled()"), ("csc", "await cancel_shielded_checkpoint()"), ("cp", "await checkpoint()")],
                   step_t, (False, False, False), at_exit_t, instance="_TeeAsyncIterator.__anext__")
+    # the "this iterator has produced an element" flag (it excuses the final checkpoint) is private to each iterator object: it starts
+    # False in every new iterator - also in a fork of an iterator that has already produced elements - and becomes True only in __anext__
+    tinit = ctx.fn("_TeeAsyncIterator.__init__", ITER)
+    ws_ = ctx.writers("_element_yielded", [ITER])
+    ctx.floor("R08-b", "writers of _TeeAsyncIterator._element_yielded", len(ws_), 2)
+    for f_, rel_, st_, kind_, val_, n_ in ws_:
+        q_ = f_.qual if f_ else "<module>"
+        if q_ == "_TeeAsyncIterator.__init__":
+            ok = kind_ == "assign" and isinstance(val_, ast.Constant) and val_.value is False
+            what_ = "a new tee iterator (fork or not) starts with `_element_yielded = False`"
+        elif q_ == "_TeeAsyncIterator.__anext__":
+            ok = kind_ == "assign" and isinstance(val_, ast.Constant) and val_.value is True
+            what_ = "`_element_yielded` only ever becomes True, in __anext__"
+        else:
+            ok, what_ = False, "`_element_yielded` is written only by __init__ and __anext__"
+        ctx.ob("R08-b", f_ if f_ else tinit, what_, ok, node=st_, detail="" if ok else f"`{norm(st_)}` in {q_}: a fork that inherits the flag ends without any checkpoint",
+               by=(f"{q_}:{kind_}",))
+    dominates_all_exits(ctx, "R08-b", tinit, "self._element_yielded = False", "every new tee iterator starts with the flag cleared")
     fill = ctx.fn("_TeeState.fill", ITER)
     for r in [x for x in own_walk(fill.node) if isinstance(x, ast.Return)]:
         v = r.value
